@@ -64,6 +64,21 @@ func cliCases(r *rand.Rand, tier string) []string {
 		cliLine("discard", "null", "none", cfgOf(nil), false),
 		cliLine("discard", "mistyped", "reject", cfgOf("yes"), false),
 	)
+	// the keys of a configuration file are case-insensitive (viper folds them, also inside the pools list)
+	{
+		c1 := cfgOf("absent", false)
+		c1["POOLS"] = c1["pools"]
+		delete(c1, "pools")
+		out = append(out, cliLine("discard", "POOLS", "disc", c1, false))
+		c2 := cfgOf("absent", "absent")
+		p0 := c2["pools"].([]any)[0].(map[string]any)
+		p0["Discard_Overflow"] = false
+		p1 := c2["pools"].([]any)[1].(map[string]any)
+		p1["DISCARD_OVERFLOW"] = true
+		c2["Pools"] = c2["pools"]
+		delete(c2, "pools")
+		out = append(out, cliLine("discard", "Discard_Overflow", "disc", c2, false))
+	}
 	n := 6
 	if tier == "thorough" {
 		n = 150
